@@ -1,6 +1,9 @@
 use hv::engine::{install_quiet_panic_hook, Tier};
 use hv::runner;
 
+#[global_allocator]
+static GLOBAL: hv::alloc::ShardAlloc = hv::alloc::ShardAlloc;
+
 fn usage() -> ! {
     eprintln!("usage: hv run <ID> [quick|thorough] [--sub <name>] | hv replay <file> | hv list");
     std::process::exit(2);
